@@ -22,7 +22,8 @@ class CrashTask(Task):
             steps += 1
         if "+" in mode:
             mode, how = mode.split("+")
-            fork_child(self.counter, how)
+            if fork_child(self.counter, how) == "child":
+                return
             steps += 1
         if mode == "ok":
             mark(self.counter, "E", "E BodyEnd")
